@@ -17,6 +17,7 @@ OUTPUTS = {
     'gen_adim': ['Gen.AdimF', 'Gen.AdimR'],
     'gen_bhref': ['Gen.BHRefF', 'Gen.BHRefR'],
     'gen_qcd': ['Gen.QcdSrcF', 'Gen.QcdSrcR'],
+    'gen_eff': ['Gen.EffSrcF', 'Gen.EffSrcR'],
 }
 
 
@@ -35,7 +36,7 @@ def main(strict=False):
         pass
     except Exception as e:
         status['py2lean'] = repr(e)[:400]
-    for gen in ('gen_classtable', 'gen_adim', 'gen_bhref', 'gen_qcd'):
+    for gen in ('gen_classtable', 'gen_adim', 'gen_bhref', 'gen_qcd', 'gen_eff'):
         try:
             mod = __import__(gen)
         except ImportError:
